@@ -306,6 +306,57 @@ class SymEval:
                           a.default, a.sample)
         raise Unsupported('transpose rank')
 
+    def reshape(self, a, dims):
+        """only reshapes that add / drop unit axes (or name the sample axis -1) are modelled"""
+        dims = list(dims)
+        for i, d in enumerate(dims):
+            if isinstance(d, Rat) and self.A.is_const(d):
+                dims[i] = int(self.A.const_of(d))
+        if a.sample:
+            if not dims or not (dims[0] == -1 or not isinstance(dims[0], int)):
+                raise Unsupported('reshape of a stacked array to %r' % (dims,))
+            dims = dims[1:]
+        if not all(isinstance(d, int) for d in dims):
+            raise Unsupported('reshape to %r' % (dims,))
+        core_new = [d for d in dims if d != 1]
+        core_old = [d for d in a.shape if d != 1]
+        if -1 in core_new and len(core_new) == 1 and len(core_old) <= 1:
+            core_new = core_old
+            dims = [core_old[0] if d == -1 else d for d in dims] if core_old else \
+                [1 if d == -1 else d for d in dims]
+        if core_new != core_old:
+            raise Unsupported('reshape %r -> %r changes the element layout' % (a.shape, dims))
+        out = SArray(tuple(dims), {}, a.default, a.sample)
+        keep_old = [k for k, d in enumerate(a.shape) if d != 1]
+        keep_new = [k for k, d in enumerate(dims) if d != 1]
+        for idx, v in a.entries.items():
+            j = [0] * len(dims)
+            for ko, kn in zip(keep_old, keep_new):
+                j[kn] = idx[ko]
+            out.entries[tuple(j)] = v
+        return out
+
+    def permute(self, a, axes):
+        """np.transpose(a, axes): the (unrepresented) sample axis must stay in front"""
+        if not isinstance(a, SArray):
+            return a
+        if not isinstance(axes, (list, tuple)) or not all(isinstance(x, int) for x in axes):
+            raise Unsupported('transpose axes %r' % (axes,))
+        axes = [x + a.ndim if x < 0 else x for x in axes]
+        if sorted(axes) != list(range(a.ndim)):
+            raise Unsupported('transpose axes %r for %d dimensions' % (axes, a.ndim))
+        if a.sample:
+            if axes[0] != 0:
+                raise Unsupported('transpose moves the sample axis')
+            perm = [x - 1 for x in axes[1:]]
+        else:
+            perm = axes
+        shape = tuple(a.shape[p] for p in perm)
+        out = SArray(shape, {}, a.default, a.sample)
+        for idx, v in a.entries.items():
+            out.entries[tuple(idx[p] for p in perm)] = v
+        return out
+
     def cross(self, a, b):
         a, b = self.to_array(a), self.to_array(b)
         if a.shape != (3,) or b.shape != (3,):
@@ -1272,7 +1323,8 @@ class SymEval:
             if name == 'sum':
                 return self.call_ext('numpy.sum', [obj] + args, kwargs, node)
             if name == 'reshape':
-                return obj
+                return self.reshape(obj, args[0] if len(args) == 1 and
+                                    isinstance(args[0], (tuple, list)) else args)
         if isinstance(obj, Rec):
             if name == 'copy':
                 return Rec(dict(obj.cols), obj.kind, obj.name, obj.index)
@@ -1284,8 +1336,22 @@ class SymEval:
             return obj
         return Opaque('method', obj, name)
 
+    KW_MODELLED = {'numpy.transpose': {'axes'}, 'numpy.stack': {'axis'},
+                   'numpy.round': {'decimals'}, 'numpy.around': {'decimals'},
+                   'builtins.round': {'ndigits'}}
+    KW_GUARDED = {'numpy.cross', 'numpy.dot', 'numpy.sum', 'numpy.transpose', 'numpy.einsum',
+                  'numpy.hstack', 'numpy.vstack', 'numpy.block', 'numpy.stack',
+                  'numpy.column_stack', 'numpy.hypot', 'numpy.square', 'numpy.eye',
+                  'numpy.identity', 'numpy.atleast_2d', 'numpy.arctan2', 'numpy.arcsin',
+                  'numpy.arccos', 'numpy.arctan', 'numpy.round', 'numpy.around'}
+
     def call_ext(self, q, args, kwargs, node):
         A = self.A
+        if q in self.KW_GUARDED or q in UFUNCS:
+            extra = set(kwargs) - {'dtype'} - self.KW_MODELLED.get(q, set())
+            if extra:
+                # a keyword the model would silently ignore (axis=, out=, where=, ...)
+                raise Unsupported('%s: keyword(s) %s not modelled' % (q, sorted(extra)))
         if q in UFUNCS:
             f = getattr(A, UFUNCS[q])
             return self.emap(f, args[0])
@@ -1351,7 +1417,10 @@ class SymEval:
                 return s
             raise Unsupported('sum with axis')
         if q == 'numpy.transpose':
-            return self.transpose(args[0])
+            axes = args[1] if len(args) > 1 else kwargs.get('axes')
+            if axes is None:
+                return self.transpose(args[0])
+            return self.permute(args[0], axes)
         if q == 'numpy.einsum' and isinstance(args[0], str) and len(args) == 3:
             return self.einsum(args[0], args[1], args[2])
         if q == 'numpy.ix_':
